@@ -20,6 +20,12 @@ Definition decode (k : codec) (fl : flags) (j : json) : result pyval :=
   | KResult => result_decode fl j
   end.
 
+(* the round trips the property is about *)
+Definition layer_roundtrip (v : pyval) : result pyval := do t <- layer_encode v; layer_decode t.
+Definition evqe_roundtrip (v : pyval) : result pyval := do t <- evqe_encode v; evqe_decode t.
+Definition result_roundtrip (fl : flags) (v : pyval) : result pyval :=
+  do t <- result_encode fl v; result_decode fl t.
+
 Inductive c18case :=
 (* x; json.loads(json.dumps(x, cls=Enc)) read without a hook (or the exception class);
       json.loads(json.dumps(x, cls=Enc), cls=Dec) converted field by field (or the exception class) *)
